@@ -12,7 +12,8 @@
 (* `offset` removes the multisets at distances 0..offset-1 as a whole.     *)
 (***************************************************************************)
 EXTENDS CoocCore
-CONSTANTS V, MaxSet, MaxSets, MaxDocs, Cfgs, EMIT
+CONSTANTS V, MaxSet, MaxSets, MaxDocs, Cfgs, EMIT,
+          AllowMask     \* BOOLEAN: the generated corpora may contain the mask token V (positions of pruned tokens, C14)
 Tok == 0..V
 VARIABLES corpus, ci, done
 vars == <<corpus, ci, done>>
@@ -77,7 +78,7 @@ NewSet == /\ ~done /\ Len(LastDoc) < MaxSets /\ LastDoc[Len(LastDoc)] # <<>>
 NewDoc == /\ ~done /\ Len(corpus) < MaxDocs /\ LastDoc[Len(LastDoc)] # <<>>
           /\ corpus' = Append(corpus, << <<>> >>) /\ UNCHANGED <<ci, done>>
 Finish == /\ ~done /\ LastDoc[Len(LastDoc)] # <<>> /\ done' = TRUE /\ UNCHANGED <<corpus, ci>>
-Next == (\E t \in 0..(V - 1) : AddTok(t)) \/ NewSet \/ NewDoc \/ Finish
+Next == (\E t \in 0..(IF AllowMask THEN V ELSE V - 1) : AddTok(t)) \/ NewSet \/ NewDoc \/ Finish
 Spec == Init /\ [][Next]_vars
 EmitInv == IF EMIT /\ done
            THEN PrintT(ToJson([corpus |-> corpus, ci |-> ci, cells |-> CellsJson(Cfgs[ci], Cells(Cfgs[ci], corpus))]))
